@@ -86,3 +86,60 @@ package dict
 //@   ensures [C11 C17] supported_iff: err == nil <==> appsupported(p, code, typ[0])
 //@   ensures found: err == nil <==> app != nil
 //@ end
+//@
+//@ # ======================= Load (C17): every definition read is indexed; the one read last wins =========
+//@ spec pinit(p *Parser) bool = p.appcode != nil && p.apptype != nil && p.avpname != nil && p.avpcode != nil && p.command != nil
+//@ spec appwf(a *App) bool = (len(a.Command) == 0 || fresh(a.Command)) && (len(a.AVP) == 0 || fresh(a.AVP)) && live(a.Command) && live(a.AVP) && (forall j int :: 0 <= j && j < len(a.Command) ==> a.Command[j] != nil) && (forall j int :: 0 <= j && j < len(a.AVP) ==> a.AVP[j] != nil && fresh(a.AVP[j]))
+//@ spec filewf(f *File) bool = (len(f.App) == 0 || fresh(f.App)) && live(f.App) && forall i int :: 0 <= i && i < len(f.App) ==> f.App[i] != nil && fresh(f.App[i]) && appwf(f.App[i])
+//@ # encoding/xml is trusted: Decode fills the destination with newly allocated elements, never nil ones
+//@ func (*xml.Decoder).Decode(d, v) (err)
+//@   trusted
+//@   modifies v.(*File).*
+//@   ensures new_elements: err == nil && typeis(v, *File) ==> filewf(v.(*File))
+//@ end
+//@ func xml.NewDecoder(r) (d)
+//@   trusted
+//@   modifies
+//@   ensures made: d != nil
+//@ end
+//@ # the closure passed to p.once.Do (free variable p)
+//@ func (*Parser).Load$1()
+//@   property C17
+//@   requires p != nil
+//@   modifies p.appcode, p.apptype, p.avpname, p.avpcode, p.command
+//@   ensures maps_made: pinit(p) && fresh(p.appcode) && fresh(p.apptype) && fresh(p.avpname) && fresh(p.avpcode) && fresh(p.command)
+//@ end
+//@ func updateType(a) (err)
+//@   property C17
+//@   requires a != nil
+//@   modifies a.Data.Type
+//@   ensures [C17] known_type_or_error: err == nil <==> old(has(datatype.Available, a.Data.TypeName))
+//@   ensures [C17] type_id_set: err == nil ==> a.Data.Type == datatype.Available[a.Data.TypeName]
+//@ end
+//@ func (*Parser).Load(p, r) (err)
+//@   property C17
+//@   requires p != nil && r != nil && !locked(&p.mu) && (oncedone(&p.once) ==> pinit(p))
+//@   modifies p.file, p.file[len(p.file):cap(p.file)], p.appcode, p.apptype, p.avpname, p.avpcode, p.command, mapof(p.appcode), mapof(p.apptype), mapof(p.avpname), mapof(p.avpcode), mapof(p.command),
+//@            locked(&p.mu), oncedone(&p.once), fresh
+//@   ensures lock_released: !locked(&p.mu)
+//@   ensures initialised: oncedone(&p.once) && pinit(p)
+//@   loop 0
+//@     invariant 0 - 1 <= rangeindex && rangeindex < len(f.App)
+//@     invariant decoded: filewf(f)
+//@     invariant [C17] most_recent_application_wins: rangeindex >= 0 ==> p.appcode[f.App[rangeindex].ID] == f.App[rangeindex] && p.apptype[mk(appIdTypeIdx, f.App[rangeindex].ID, f.App[rangeindex].Type)] == f.App[rangeindex]
+//@   end
+//@   loop 1
+//@     invariant 0 - 1 <= rangeindex && rangeindex < len(app.Command)
+//@     invariant decoded: app != nil && appwf(app)
+//@     invariant [C17] command_indexed: rangeindex >= 0 ==> p.command[mk(codeIdx, app.ID, app.Command[rangeindex].Code, 4294967295)] == app.Command[rangeindex]
+//@   end
+//@   loop 2
+//@     invariant 0 - 1 <= rangeindex && rangeindex < len(app.AVP)
+//@     invariant decoded: app != nil && appwf(app)
+//@     invariant [C17] most_recent_definition_wins: rangeindex >= 0 ==>
+//@          p.avpname[mk(nameIdx, app.ID, app.AVP[rangeindex].Name, app.AVP[rangeindex].VendorID)] == app.AVP[rangeindex] &&
+//@          p.avpcode[mk(codeIdx, app.ID, app.AVP[rangeindex].Code, app.AVP[rangeindex].VendorID)] == app.AVP[rangeindex] &&
+//@          p.avpname[mk(nameIdx, app.ID, app.AVP[rangeindex].Name, 4294967295)] == app.AVP[rangeindex] &&
+//@          p.avpcode[mk(codeIdx, app.ID, app.AVP[rangeindex].Code, 4294967295)] == app.AVP[rangeindex] && app.AVP[rangeindex].App == app
+//@   end
+//@ end
